@@ -83,3 +83,16 @@ Definition cmd_item (x : hitem) : Prop :=
   | HStep s => exists c, listing_cmd c = true /\ step_of c s = true
   | HEnv o => env_op o = true
   end.
+
+(* ---- tree packs outside check ---- *)
+(* the fault list for cached packs: the honest content (possibly of a pack the repository no
+   longer has) or a truncation of it *)
+Definition PackPrefix (content : key -> bytes) (c : cache) : Prop :=
+  forall i d, find (Pack, i) (files c) = Some d -> is_prefix d (content (Pack, i)).
+(* a partial read (any cacheable flag) of at least one byte of a pack the repository has —
+   the packs a command reads are those its freshly read index names *)
+Definition indexed_pack_read (be : fmap) (o : op) : Prop :=
+  match o with
+  | OReadPartial Pack i _ _ len => (0 < len)%nat /\ find (Pack, i) be <> None
+  | _ => False
+  end.
